@@ -347,6 +347,9 @@ func formatInto(sb *strings.Builder, format string, args []string) (int, error) 
 		case len(fmts) > 0:
 			switch c {
 			case '%':
+				if len(fmts) > 1 {
+					return 0, fmt.Errorf("invalid format char: %c", c)
+				}
 				sb.WriteByte('%')
 				fmts = nil
 			case 'c':
